@@ -93,6 +93,30 @@ type tbl struct {
 	filter bool // V can be used as a filter value (comparable scalar)
 }
 
+// Fussy serialises itself and refuses negative numbers
+type Fussy struct{ N int64 }
+
+func (f Fussy) Value() (driver.Value, error) {
+	if f.N < 0 {
+		return nil, fmt.Errorf("Fussy: %d cannot be stored", f.N)
+	}
+	return f.N, nil
+}
+
+func (f *Fussy) Scan(src interface{}) error {
+	switch v := src.(type) {
+	case int64:
+		f.N = v
+	case []byte:
+		n, err := strconv.ParseInt(string(v), 10, 64)
+		f.N = n
+		return err
+	default:
+		return fmt.Errorf("Fussy: cannot scan %T", src)
+	}
+	return nil
+}
+
 func eqDefault(a, b interface{}) bool { return deepEq(reflect.ValueOf(a), reflect.ValueOf(b)) }
 
 // deepEq is reflect.DeepEqual with time.Time compared by Equal and proto messages by proto.Equal.
@@ -231,6 +255,7 @@ func tables(s *sqlgen.Schema) []tbl {
 	add("t_instr", RowINull[string]{}, []interface{}{&RowINull[string]{1, ""}, &RowINull[string]{2, "v"}}, tbl{filter: true})
 	add("t_inbool", RowINull[bool]{}, []interface{}{&RowINull[bool]{1, false}, &RowINull[bool]{2, true}}, tbl{filter: true})
 	add("t_intime", RowINull[time.Time]{}, []interface{}{&RowINull[time.Time]{1, time.Time{}}, &RowINull[time.Time]{2, times()[0]}}, tbl{})
+	add("t_fussy", Row[*Fussy]{}, mk[*Fussy](nil, &Fussy{0}, &Fussy{5}), tbl{})
 	add("t_wide", Wide{}, []interface{}{
 		&Wide{Id: 1},
 		&Wide{A: -3, Id: 2, B: p("b"), C: []byte("c"), D: times()[1], E: "e", F: p(1.5), G: 65535, H: "h"},
@@ -452,6 +477,9 @@ func run(rp *explore.Report, tier string) {
 			} else if v.Kind() != reflect.Ptr && v.CanAddr() {
 				filters = append(filters, sqlgen.Filter{"v": v.Addr().Interface()})
 			}
+		}
+		if t.name == "t_fussy" { // filter values whose conversion to a column value fails
+			filters = append(filters, sqlgen.Filter{"v": &Fussy{-1}}, sqlgen.Filter{"v": Fussy{-2}}, sqlgen.Filter{"v": &Fussy{-1}, "id": int64(1)})
 		}
 		for _, f := range filters {
 			k++
